@@ -327,8 +327,11 @@ class DoctestParser:
         s1 = 0
         s2 = 0
         if self.simulate_repl:
-            # Break down first parts which dont have any want
-            for s1, s2 in zip(ps1_linenos, ps1_linenos[1:]):
+            # Break down first parts which dont have any want. Source lines
+            # in front of the first statement (e.g. a bare prompt) belong to
+            # the first part.
+            repl_linenos = [0] + ps1_linenos[1:]
+            for s1, s2 in zip(repl_linenos, repl_linenos[1:]):
                 example = slice_example(s1, s2)
                 yield example
             s1 = s2
